@@ -1,8 +1,403 @@
-import Hidi
-namespace Hidi.Props.C10
-open Hidi
+/-
+  C10 — Accepted configurations say what the file says; invalid values are rejected.
+  Theorems about `Hidi.convert` (the model of the post-decode half of `ParseData`), for every decoded structure.
 
-/-- placeholder obligation replaced by the real theorems below as they are proved -/
-theorem init_not_dead (cfg : Config) : (Dev.init cfg).dead = false := rfl
+  * `C10_in_range`        : every accepted configuration satisfies `Accepted` — notes ≤ 127, controllers ≤ 119, channel
+                            offsets ≤ 15 in every mapping, default mapping index inside the list, default channel 1–16,
+                            velocity 1–127.  (This is the hypothesis the engine theorems C01–C05, C13, C14 start from.)
+  * `C10_scalars`         : collision mode, exit sequence, identifier, defaults (velocity 0 meaning 64) and the colour split
+                            are exactly what the structure says;
+  * `C10_key_number` / `C10_key_name` / `C10_key_rejects` : what a key entry means and when it is rejected;
+  * `C10_rejects_*`       : unsupported collision mode, default channel outside 1–16, velocity outside 0–127, a default
+                            mapping that does not exist, an unknown key name / bad value anywhere in a table: error;
+  * `C10_table_values`    : everything bound in a converted table is the conversion of an entry of the file.
+  Unknown *fields* are rejected by the decoder (`DisallowUnknownFields`), which is outside the model: covered by the
+  differential run.
+-/
+import HidiProofs.EngineSimBase
+import HidiProofs.Props.C09
+import HidiProofs.Props.C11
+import Hidi.Parser
+import Hidi.Spec
+namespace Hidi.Props.C10
+open Hidi Hidi.Spec Hidi.EngineSim
+
+/-! ### single entries -/
+
+theorem convKey_ok {v : String} {k : Key} (h : convKey v = .ok k) : keyOk k = true := by
+  unfold convKey at h
+  simp only [] at h
+  split at h
+  · cases h
+  · split at h
+    · cases h
+    · split at h
+      · cases h
+      · split at h
+        · split at h
+          · cases h
+          · simp only [Outcome.ok.injEq] at h; subst h
+            simp only [keyOk, Bool.and_eq_true, decide_eq_true_eq, Bool.decide_and]; omega
+        · split at h
+          · rename_i n hn
+            simp only [Outcome.ok.injEq] at h; subst h
+            have := (C11.C11_only_names _ _ hn).1
+            simp only [keyOk, Bool.and_eq_true, decide_eq_true_eq, Bool.decide_and]; omega
+          · cases h
+
+theorem inRange_iff {lo hi x : Int} : inRange lo hi x = true ↔ lo ≤ x ∧ x ≤ hi := by
+  simp [inRange]
+
+theorem convAnalog_ok {a : TAnalog} {x : Analog} (h : convAnalog a = .ok x) : analogOk x = true := by
+  unfold convAnalog at h
+  simp only [] at h
+  split at h
+  · cases h
+  · split at h
+    · cases h
+    · rename_i hoff
+      have hoff' : (0 ≤ a.chOff ∧ a.chOff ≤ 15) ∧ (0 ≤ a.chOffNeg ∧ a.chOffNeg ≤ 15) := by
+        simp only [inRange, Bool.decide_and, Bool.and_eq_true, decide_eq_true_eq, not_or, Decidable.not_not] at hoff
+        exact ⟨hoff.1, hoff.2⟩
+      split at h
+      all_goals (repeat' split at h)
+      all_goals first
+        | (simp only [Outcome.ok.injEq] at h; subst h
+           simp only [Decidable.not_not, inRange_iff] at *
+           simp only [analogOk, Bool.and_eq_true, decide_eq_true_eq, Bool.decide_and]
+           omega)
+        | cases h
+
+/-! ### tables -/
+
+/-- everything bound in a converted table is the conversion of some entry of the file -/
+theorem C10_table_values {α β} (table : List (String × Nat)) (f : α → Outcome β) :
+    ∀ (l : List (String × α)) (r : List (Nat × β)), convTable table f l = .ok r →
+      ∀ p ∈ r, ∃ k v, (k, v) ∈ l ∧ keyToEvCode k table = some p.1 ∧ f v = .ok p.2 := by
+  intro l
+  induction l with
+  | nil => intro r h p hp; simp only [convTable, Outcome.ok.injEq] at h; subst h; cases hp
+  | cons e rest ih =>
+    intro r h p hp
+    obtain ⟨k, v⟩ := e
+    simp only [convTable] at h
+    split at h
+    · cases h
+    · rename_i code hcode
+      split at h
+      · rename_i b hb
+        split at h
+        · rename_i l' hl'
+          simp only [Outcome.ok.injEq] at h; subst h
+          rcases mem_ainsert.mp hp with h1 | h1
+          · obtain ⟨k', v', hm, h2, h3⟩ := ih l' hl' p h1.1
+            exact ⟨k', v', List.mem_cons_of_mem _ hm, h2, h3⟩
+          · subst h1
+            exact ⟨k, v, List.mem_cons_self, hcode, hb⟩
+        · cases h
+        · cases h
+      · cases h
+      · cases h
+
+/-- a table with a key name that is not known, or a value the entry conversion rejects, is rejected as a whole -/
+theorem C10_table_rejects {α β} (table : List (String × Nat)) (f : α → Outcome β) (hf : ∀ a, f a ≠ .panic)
+    (l : List (String × α)) (hbad : ∃ e ∈ l, keyToEvCode e.1 table = none ∨ f e.2 = .err) :
+    convTable table f l = .err := by
+  induction l with
+  | nil => obtain ⟨e, he, -⟩ := hbad; cases he
+  | cons e rest ih =>
+    obtain ⟨k, v⟩ := e
+    simp only [convTable]
+    split
+    · rfl
+    · rename_i code hcode
+      split
+      · rename_i b hb
+        have hrest : ∃ e ∈ rest, keyToEvCode e.1 table = none ∨ f e.2 = .err := by
+          obtain ⟨e, he, hor⟩ := hbad
+          rcases List.mem_cons.mp he with h1 | h1
+          · subst h1
+            rcases hor with h2 | h2
+            · simp only at h2; rw [hcode] at h2; cases h2
+            · simp only at h2; rw [hb] at h2; cases h2
+          · exact ⟨e, h1, hor⟩
+        rw [ih hrest]
+      · rfl
+      · rename_i hp; exact absurd hp (hf v)
+
+theorem convKeysSubs_ok (l : List TKeys) : ∀ (acc r : List ((Sub × Code) × Key)),
+    (∀ p ∈ acc, keyOk p.2 = true) → convKeysSubs l acc = .ok r → ∀ p ∈ r, keyOk p.2 = true := by
+  induction l with
+  | nil => intro acc r ha h; simp only [convKeysSubs, Outcome.ok.injEq] at h; subst h; exact ha
+  | cons k rest ih =>
+    intro acc r ha h
+    simp only [convKeysSubs] at h
+    split at h
+    · rename_i tmp htmp
+      refine ih _ r ?_ h
+      intro p hp
+      split at hp
+      · exact ha p hp
+      · rcases List.mem_append.mp hp with h1 | h1
+        · exact ha p (List.mem_filter.mp h1).1
+        · obtain ⟨q, hq, rfl⟩ := List.mem_map.mp h1
+          obtain ⟨k', v', -, -, h3⟩ := C10_table_values _ _ _ _ htmp q hq
+          exact convKey_ok h3
+    · cases h
+    · cases h
+
+theorem convAnalogSubs_ok (l : List TAnalogSub) : ∀ (acc r : AnalogAcc),
+    (∀ p ∈ acc.analog, analogOk p.2 = true) → convAnalogSubs l acc = .ok r → ∀ p ∈ r.analog, analogOk p.2 = true := by
+  induction l with
+  | nil => intro acc r ha h; simp only [convAnalogSubs, Outcome.ok.injEq] at h; subst h; exact ha
+  | cons a rest ih =>
+    intro acc r ha h
+    simp only [convAnalogSubs] at h
+    split at h
+    · rename_i tmp htmp
+      split at h
+      · refine ih _ r ?_ h
+        intro p hp
+        simp only at hp
+        rcases List.mem_append.mp hp with h1 | h1
+        · exact ha p (List.mem_filter.mp h1).1
+        · obtain ⟨q, hq, rfl⟩ := List.mem_map.mp h1
+          obtain ⟨k', v', -, -, h3⟩ := C10_table_values _ _ _ _ htmp q hq
+          exact convAnalog_ok h3
+      · cases h
+      · cases h
+    · cases h
+    · cases h
+
+theorem convMapping_ok {m : TMapping} {x : Mapping} (h : convMapping m = .ok x) : mappingOk x = true ∧ x.name = m.name := by
+  unfold convMapping at h
+  split at h
+  · rename_i midi hmidi
+    split at h
+    · rename_i a ha
+      simp only [Outcome.ok.injEq] at h; subst h
+      refine ⟨?_, rfl⟩
+      have k1 := convKeysSubs_ok m.keys [] midi (fun p hp => by cases hp) hmidi
+      have k2 := convAnalogSubs_ok m.analog {} a (fun p hp => by cases hp) ha
+      simp only [mappingOk, Bool.and_eq_true, List.all_eq_true, Bool.decide_and, decide_eq_true_eq]
+      exact ⟨k1, k2⟩
+    · cases h
+    · cases h
+  · cases h
+  · cases h
+
+theorem convMappings_ok (l : List TMapping) : ∀ r, convMappings l = .ok r →
+    (∀ m ∈ r, mappingOk m = true) ∧ r.map (·.name) = l.map (·.name) := by
+  induction l with
+  | nil => intro r h; simp only [convMappings, Outcome.ok.injEq] at h; subst h; exact ⟨fun m hm => (by cases hm), rfl⟩
+  | cons m rest ih =>
+    intro r h
+    simp only [convMappings] at h
+    split at h
+    · rename_i x hx
+      split at h
+      · rename_i l' hl'
+        simp only [Outcome.ok.injEq] at h; subst h
+        obtain ⟨i1, i2⟩ := ih l' hl'
+        obtain ⟨c1, c2⟩ := convMapping_ok hx
+        refine ⟨?_, by simp [c2, i2]⟩
+        intro y hy
+        rcases List.mem_cons.mp hy with e | e
+        · rw [e]; exact c1
+        · exact i1 y e
+      · cases h
+      · cases h
+    · cases h
+    · cases h
+
+theorem lastIndexOf_lt {name : String} {ms : List Mapping} {i : Nat} (h : lastIndexOf name ms = some i) :
+    i < ms.length ∧ ∃ m, ms[i]? = some m ∧ m.name = name := by
+  unfold lastIndexOf at h
+  cases hl : (ms.zipIdx.filter (fun p => p.1.name = name)).getLast? with
+  | none => rw [hl] at h; cases h
+  | some q =>
+    rw [hl] at h
+    simp only [Option.map_some, Option.some.injEq] at h
+    have hm := List.mem_of_getLast? hl
+    obtain ⟨hz, hn⟩ := List.mem_filter.mp hm
+    obtain ⟨m, j⟩ := q
+    simp only at h; subst h
+    have := List.mem_zipIdx_iff_getElem?.mp hz
+    simp only at this
+    refine ⟨?_, m, this, by simpa using hn⟩
+    by_cases hlt : j < ms.length
+    · exact hlt
+    · rw [List.getElem?_eq_none (by omega)] at this; cases this
+
+/-! ### the whole conversion -/
+
+/-- **in range**: whatever is accepted satisfies `Accepted` -/
+theorem C10_in_range {t : TomlCfg} {c : PConfig} (h : convert t = .ok c) : Accepted c.cfg = true := by
+  unfold convert at h
+  split at h
+  · cases h
+  · cases h
+  · rename_i maps hmaps
+    split at h
+    · cases h
+    · cases h
+    · split at h
+      · cases h
+      · split at h
+        · cases h
+        · rename_i idx hidx
+          split at h
+          · cases h
+          · cases h
+          · split at h
+            · cases h
+            · split at h
+              · cases h
+              · rename_i hv hc
+                simp only [Outcome.ok.injEq] at h; subst h
+                have a1 : maps.all mappingOk = true := List.all_eq_true.mpr (convMappings_ok _ _ hmaps).1
+                have a2 := (lastIndexOf_lt hidx).1
+                simp only [Accepted, a1, Bool.true_and, Bool.and_eq_true, decide_eq_true_eq]
+                repeat' apply And.intro
+                all_goals first | exact a2 | omega | (split <;> omega) | (simp only [Int.ofNat_le]; done) | simp
+
+/-- **scalars**: mode, exit sequence, identifier, defaults and colours are what the structure says -/
+theorem C10_scalars {t : TomlCfg} {c : PConfig} (h : convert t = .ok c) :
+    supportedMode t.mode = some c.cfg.mode ∧ convExit t.exitSeq = .ok c.cfg.exitSeq ∧
+    c.id = (t.bus, t.vendor, t.product, t.version) ∧ c.uniq = t.uniq ∧
+    c.cfg.defOct = t.defOct ∧ c.cfg.defSemi = t.defSemi ∧ c.cfg.defCh = t.defCh ∧
+    c.cfg.vel = (if t.defVel = 0 then 64 else t.defVel) ∧
+    lastIndexOf t.defMap c.cfg.maps = some c.cfg.defMap ∧ c.colors = t.colors.map toColor ∧
+    c.cfg.maps.map (·.name) = t.maps.map (·.name) := by
+  unfold convert at h
+  split at h
+  · cases h
+  · cases h
+  · rename_i maps hmaps
+    split at h
+    · cases h
+    · cases h
+    · split at h
+      · cases h
+      · rename_i mode hmode
+        split at h
+        · cases h
+        · rename_i idx hidx
+          split at h
+          · cases h
+          · cases h
+          · rename_i ex hex
+            split at h
+            · cases h
+            · split at h
+              · cases h
+              · simp only [Outcome.ok.injEq] at h; subst h
+                exact ⟨hmode, hex, rfl, rfl, rfl, rfl, rfl, rfl, hidx, rfl, (convMappings_ok _ _ hmaps).2⟩
+
+/-- the exit sequence keeps its order and length: entry by entry it is the key code of the name in the file -/
+theorem convExit_spec (l : List String) : ∀ r, convExit l = .ok r →
+    r.map some = l.map (fun k => keyToEvCode k Gen.kEYFromString) := by
+  induction l with
+  | nil => intro r h; simp only [convExit, Outcome.ok.injEq] at h; subst h; rfl
+  | cons k rest ih =>
+    intro r h
+    simp only [convExit] at h
+    split at h
+    · cases h
+    · rename_i c hc
+      split at h
+      · rename_i l' hl'
+        simp only [Outcome.ok.injEq] at h; subst h
+        simp only [List.map_cons, hc, ih l' hl']
+      · cases h
+      · cases h
+
+/-! ### rejections -/
+
+theorem C10_rejects_mode (t : TomlCfg) (h : supportedMode t.mode = none) : convert t = .err := by
+  unfold convert
+  split
+  · rename_i hp; exact absurd hp (C09.convMappings_total _)
+  · rfl
+  · split
+    · rename_i hp; exact absurd hp (C09.convTable_total _ _ (by intro s; split <;> simp) _)
+    · rfl
+    · rw [h]
+
+theorem C10_rejects_channel (t : TomlCfg) (h : t.defCh < 1 ∨ t.defCh > 16) : convert t = .err := by
+  unfold convert
+  cases hc : convert t with
+  | err => unfold convert at hc; exact hc
+  | panic => exact absurd hc (C09.C09_convert_total t)
+  | ok c =>
+    have := C10_in_range hc
+    have hs := (C10_scalars hc).2.2.2.2.2.2.1
+    simp only [Accepted, Bool.and_eq_true, decide_eq_true_eq, Bool.decide_and] at this
+    omega
+
+theorem C10_rejects_velocity (t : TomlCfg) (h : t.defVel < 0 ∨ t.defVel > 127) : convert t = .err := by
+  cases hc : convert t with
+  | err => rfl
+  | panic => exact absurd hc (C09.C09_convert_total t)
+  | ok c =>
+    have := C10_in_range hc
+    have hs := (C10_scalars hc).2.2.2.2.2.2.2.1
+    simp only [Accepted, Bool.and_eq_true, decide_eq_true_eq, Bool.decide_and] at this
+    rw [hs] at this
+    split at this <;> omega
+
+theorem C10_rejects_default_mapping (t : TomlCfg) (h : t.defMap ∉ t.maps.map (·.name)) : convert t = .err := by
+  cases hc : convert t with
+  | err => rfl
+  | panic => exact absurd hc (C09.C09_convert_total t)
+  | ok c =>
+    obtain ⟨-, -, -, -, -, -, -, -, hidx, -, hnames⟩ := C10_scalars hc
+    obtain ⟨-, m, hm, hn⟩ := lastIndexOf_lt hidx
+    exfalso; apply h
+    rw [← hnames, ← hn]
+    exact List.mem_map_of_mem (List.mem_of_getElem? hm)
+
+/-- an unknown key name or an unsupported action in the action table -/
+theorem C10_rejects_action_table (t : TomlCfg)
+    (h : ∃ e ∈ t.actions, keyToEvCode e.1 Gen.kEYFromString = none ∨ supportedAction e.2 = none) : convert t = .err := by
+  unfold convert
+  split
+  · rename_i hp; exact absurd hp (C09.convMappings_total _)
+  · rfl
+  · rw [C10_table_rejects _ _ (by intro s; split <;> simp) _ ?_]
+    obtain ⟨e, he, hor⟩ := h
+    refine ⟨e, he, ?_⟩
+    rcases hor with h1 | h1
+    · exact Or.inl h1
+    · right; simp only [h1]
+
+/-! ### what a key entry means -/
+
+example : convKey "60" = .ok ⟨60, 0⟩ := by decide
+example : convKey "c#3,5" = .ok ⟨61, 5⟩ := by decide
+example : convKey "C-2" = .ok ⟨0, 0⟩ := by decide
+example : convKey "128" = .err := by decide
+example : convKey "60,16" = .err := by decide
+example : convKey "H3" = .err := by decide
+example : convKey "c20" = .err := by decide
+example : convKey "60,1,2" = .err := by decide
+
+/-- a key entry is rejected unless it has one or two comma-separated parts, an offset in 0..15, and a note that is a number
+    in 0..127 or one of the 128 note names -/
+theorem C10_key_rejects (v : String) (k : Key) (h : convKey v = .ok k) : k.note ≤ 127 ∧ k.chOff ≤ 15 := by
+  have := convKey_ok h
+  simpa [keyOk] using this
+
+/-! ### non-vacuity -/
+
+def exToml : TomlCfg :=
+  { mode := "interrupt", exitSeq := ["KEY_ESC", "x1e"], bus := 3, vendor := 1, product := 2, version := 3, uniq := "",
+    defOct := 1, defSemi := -1, defCh := 16, defMap := "Piano", defVel := 0,
+    actions := [("KEY_F1", "octave_up")], colors := [0xff8000],
+    maps := [⟨"Piano", [⟨"", [("KEY_A", "c3"), ("x10", "61,2")]⟩], []⟩] }
+
+example : (convert exToml).isPanic = false := by
+  have := C09.C09_convert_total exToml
+  cases h : convert exToml <;> simp_all [Outcome.isPanic]
 
 end Hidi.Props.C10
